@@ -39,6 +39,12 @@ const wait = 4 * time.Second
 
 const knownAssign = "Dev_AssignUnsorted"
 
+// knownLatePub: a surviving job publishes a complete checkpoint of the previous assembly after it has re-assembled
+// from an older one. Nothing protects the files that checkpoint names any more (the new assembly's databases and
+// NeedsTable rounds do not know it), yet the next recovery loads it. Once that has happened in a behaviour, what
+// goes wrong afterwards is this finding (taint); everything before it, and every behaviour without it, is not.
+const knownLatePub = "Dev_LatePublication"
+
 // ------------------------------------------------------------ config ----
 
 type conf struct {
@@ -53,6 +59,7 @@ type conf struct {
 	overlap                         bool       // trace mode: job snapshot writes are held and land in seeded order; checkpoints are started meanwhile
 	mem                             []int      // dkv memtable sizes to run with, one per behaviour / generation in turn (0 = the repo's default); empty: no tuning
 	lvl, amp                        int        // dkv.smallestLevelSize / dkv.maxSizeAmpPct under tuning (0 = default)
+	latePub                         bool       // Dev_LatePublication
 	survive                         bool       // Restart keeps the workers that were not killed (cluster.RestartSurvivors)
 	swapDelayUs                     int        // every third tuned generation: flush / compaction swaps are delayed by up to this many microseconds
 }
@@ -93,6 +100,7 @@ func readConf(in *mbt.Input) (*conf, error) {
 	c.lvl, c.amp = in.CfgInt("SmallestLevel", 0), in.CfgInt("MaxSizeAmpPct", 0)
 	c.swapDelayUs = in.CfgInt("SwapDelayUs", 0)
 	c.survive = in.CfgBool("Survive", false)
+	c.latePub = in.CfgBool("Dev_LatePublication", false)
 	if c.G > 0 {
 		gd := in.CfgInt("GroupDigits", 0)
 		c.group = digits(gd, ndigits(gd))
@@ -261,6 +269,8 @@ type run struct {
 	genW     map[int]int             // generation -> worker count
 	rng      *rand.Rand              // seeded per behaviour: when to let background flushes / compactions settle
 	turn     int                     // generations booted (selects the DKV tuning)
+	tainted    bool        // a checkpoint of a previous assembly was published after a survivors restart (knownLatePub)
+	latePub    bool        // config Dev_LatePublication: the model keeps a surviving job's snapshot writes in flight across the restart
 	nrestarts  int         // restarts executed so far
 	restartsAt map[int]int // checkpoint id -> restarts executed when its snapshot write was handed to storage
 	salt     int                     // a number that belongs to the behaviour itself (its length), not to its place in the input: what is chosen per behaviour (DKV tuning, id policy of replacements, settling coins) is the same when the behaviour is replayed alone
@@ -308,6 +318,9 @@ func (r *run) reset() {
 }
 
 func (r *run) violation(what string, expected, observed any, known string) {
+	if known == "" && r.tainted {
+		known = knownLatePub
+	}
 	r.violated = true
 	r.res.Violations = append(r.res.Violations, mbt.Violation{Property: "C01", Behaviour: r.bi, Step: r.step, What: what, Expected: expected, Observed: observed, Known: known})
 }
@@ -635,6 +648,7 @@ func (r *run) exec(st mbt.Step) error {
 		_ = from
 		if r.restartsAt[st.Int("n")] != r.nrestarts {
 			r.res.Count("publishedAfterRestart", 1) // the surviving job's write of a checkpoint of an earlier assembly lands now
+			r.tainted = true
 		}
 		if st.Bool("sup") {
 			// a write that lands after a newer one: the job removes the file again, nothing refers to it
@@ -689,6 +703,10 @@ func (r *run) exec(st mbt.Step) error {
 		r.reset()
 		if jobSurvives {
 			r.res.Count("jobSurvived", 1)
+		}
+		if jobSurvives && r.latePub {
+			r.pubArr = oldWrites // the model (code as it is) lets them land later: Publish steps after this Restart
+		} else if jobSurvives {
 			// snapshot writes of the old assembly still parked at the store gate land now. By design the surviving
 			// job gives them up (the file is removed again or never written); if it publishes one nevertheless, that
 			// checkpoint is what the next recovery loads and is judged like every published checkpoint
@@ -706,6 +724,7 @@ func (r *run) exec(st mbt.Step) error {
 				}
 				if kept {
 					r.res.Count("publishedAfterRestart", 1)
+					r.tainted = true
 					r.checkPublished(mbt.Step{"n": float64(n)})
 				} else {
 					r.res.Count("writesGivenUp", 1)
@@ -1013,7 +1032,7 @@ func replay(bi int, beh []mbt.Step, cf *conf, res *mbt.Result, seed int64) {
 			os.WriteFile(fmt.Sprintf("%s/beh-%03d.json", d, bi), b, 0o644)
 		}()
 	}
-	r := &run{cf: cf, c: c, bi: bi, res: res, lostOps: map[int]bool{}, genW: map[int]int{}, late: map[[3]int]*gate.Arrival{}, lastPos: map[string]int{}, salt: len(beh), rng: rand.New(rand.NewSource(seed*7919 + int64(len(beh))))}
+	r := &run{cf: cf, c: c, bi: bi, res: res, lostOps: map[int]bool{}, genW: map[int]int{}, late: map[[3]int]*gate.Arrival{}, lastPos: map[string]int{}, salt: len(beh), latePub: cf.latePub, rng: rand.New(rand.NewSource(seed*7919 + int64(len(beh))))}
 	r.reset()
 	if _, err := r.boot(w0, false); err != nil {
 		res.Errors = append(res.Errors, fmt.Sprintf("b%d: boot: %v", bi, err))
